@@ -147,6 +147,12 @@ func (cl call) value() interface{} {
 		return tokMarshaler{cl.toks}
 	case cl.form == "writerto":
 		return tokWriterTo{cl.toks}
+	case cl.form == "xmlm":
+		return tokXMLMarshaler{cl.toks}
+	case cl.form == "xmlmp":
+		return &tokXMLMarshalerP{cl.toks}
+	case cl.form == "wrapm":
+		return wrapOf(cl.toks)
 	case strings.HasPrefix(cl.form, "struct:big"):
 		return bigValue(cl.form[7:])
 	case strings.HasPrefix(cl.form, "struct:"):
@@ -637,7 +643,9 @@ func (c *ctxT) one(cfg cfgT, cl call, class string) {
 	r.Case(line, status == "ok", class+"/"+cl.entry+"/"+strings.SplitN(cl.form, ":", 2)[0]+"/"+status)
 }
 
-var forms = []string{"reader", "marshaler", "writerto"}
+// value forms: how the argument of Encode/EncodeElement is handed over.  xmlm / xmlmp: a value
+// whose ONLY encoding method is MarshalXML (value / pointer receiver), see roundd.go
+var forms = []string{"reader", "marshaler", "writerto", "xmlm", "xmlmp"}
 
 func (c *ctxT) genCall(rnd *common.Rand, big int) call {
 	entry := pickS(rnd, []string{"send", "send", "sendel", "enc", "enc", "encel", "encel", "tw", "iq", "msg", "pres", "reply", "replyel"})
@@ -679,6 +687,17 @@ func (c *ctxT) genCall(rnd *common.Rand, big int) call {
 		} else {
 			cl.form = forms[rnd.Intn(len(forms))]
 			cl.toks = genElement(rnd, 0, true, big)
+			if cl.form == "xmlm" && rnd.Chance(1, 3) {
+				// the same element as a field of a plain struct
+				cl.form = "wrapm"
+				cl.toks = wrapToks(genElement(rnd, 1, false, big))
+			}
+			if printsItself(cl.form) {
+				cl.toks = consistentNs(cl.toks)
+				if entry == "encel" || entry == "replyel" {
+					cl.toks = resolveInherit(cl.toks)
+				}
+			}
 		}
 		if entry == "encel" || entry == "replyel" {
 			name := genName(rnd, true)
@@ -794,7 +813,7 @@ func (c *ctxT) concurrent(cfg cfgT, rnd *common.Rand, nG, nK int, caseNo int) {
 					big = 3000 + rnd.Intn(9000)
 				}
 				cl = c.genCall(rnd, big)
-				if cl.entry == "reply" || cl.entry == "replyel" || strings.HasPrefix(cl.form, "struct:") {
+				if cl.entry == "reply" || cl.entry == "replyel" || strings.HasPrefix(cl.form, "struct:") || cl.form == "wrapm" {
 					continue
 				}
 				if loc, ok := map[string]string{"iq": "iq", "msg": "message", "pres": "presence"}[cl.entry]; ok {
